@@ -21,16 +21,22 @@ CONSTANTS MaxOps,      \* length of the histories explored
           Async        \* TRUE: server goroutines / waiters interleave; FALSE: controller only (emission)
 
 Kinds == {"first", "startup", "restart", "restartfailed", "shutdown", "final"}
-Fails == {"none", "setup", "startupcb", "listen", "restartcb"}
+\* "panic": a directive's setup function panics while the new configuration is loaded; Restart
+\* recovers (casket.go: the deferred func of Instance.Restart), so it is one more way for a reload
+\* to fail at the setup stage (Start does not recover: a panic there is the caller's)
+Fails == {"none", "setup", "startupcb", "listen", "restartcb", "panic"}
 MaxGen == MaxOps
 NoGen == 0
 
 \* an operation of the history.  lin = lineage it acts on (start: the new lineage),
 \* n = number of servers of the new configuration, f = where it fails
-Ops == [t : {"start"}, lin : 1..MaxStarts, n : 1..2, f : {"none", "setup", "startupcb", "listen"}]
-  \cup [t : {"restart"}, lin : 1..MaxStarts, n : 1..2, f : Fails]
-  \cup [t : {"stop"}, lin : 1..MaxStarts, n : {1}, f : {"none"}]
-  \cup [t : {"stopall"}, lin : {1}, n : {1}, f : {"none"}]
+\* file = the listeners of the instance the operation creates can be handed over to a later
+\* reload (they implement casket.Listener, i.e. File()); FALSE: a reload finds nothing to inherit
+\* and every server of the new instance listens afresh - it is a reload all the same
+Ops == [t : {"start"}, lin : 1..MaxStarts, n : 1..2, f : {"none", "setup", "startupcb", "listen"}, file : BOOLEAN]
+  \cup [t : {"restart"}, lin : 1..MaxStarts, n : 1..2, f : Fails, file : BOOLEAN]
+  \cup [t : {"stop"}, lin : 1..MaxStarts, n : {1}, f : {"none"}, file : {TRUE}]
+  \cup [t : {"stopall"}, lin : {1}, n : {1}, f : {"none"}, file : {TRUE}]
 
 VARIABLES
     hist,       \* operations begun so far (the history)
@@ -52,8 +58,8 @@ VARIABLES
 vars == <<hist, pc, op, g, old, k, ph, inst, cb, srv, wg, instances, waiter, held, att>>
 
 NoSrv == [bound |-> FALSE, spawned |-> FALSE, begun |-> FALSE, stopreq |-> FALSE, stopdone |-> FALSE, ended |-> FALSE, spended |-> FALSE]
-NoInst == [lin |-> 0, n |-> 0, restart |-> FALSE, parent |-> NoGen, state |-> "unused"]
-NoOp == [t |-> "none", lin |-> 1, n |-> 1, f |-> "none"]
+NoInst == [lin |-> 0, n |-> 0, restart |-> FALSE, parent |-> NoGen, state |-> "unused", file |-> TRUE]
+NoOp == [t |-> "none", lin |-> 1, n |-> 1, f |-> "none", file |-> TRUE]
 
 Gens == 1..MaxGen
 Lins == 1..MaxStarts
@@ -90,7 +96,7 @@ Applicable(o) ==
 BeginStart(o) ==
     /\ o.t = "start"
     /\ g' = NextGen /\ old' = NoGen
-    /\ inst' = [inst EXCEPT ![NextGen] = [lin |-> o.lin, n |-> o.n, restart |-> FALSE, parent |-> NoGen, state |-> "starting"]]
+    /\ inst' = [inst EXCEPT ![NextGen] = [lin |-> o.lin, n |-> o.n, restart |-> FALSE, parent |-> NoGen, state |-> "starting", file |-> o.file]]
     /\ instances' = Append(instances, NextGen)       \* startWithListenerFds: saved in the list first
     /\ pc' = "dirs"
     /\ UNCHANGED <<k, ph, cb, srv, wg, waiter, held, att>>
@@ -128,7 +134,7 @@ RestartCb ==
     /\ Bump(old, "restart")
     /\ IF op.f = "restartcb"
          THEN pc' = "restartfailed" /\ UNCHANGED <<inst, instances>>
-         ELSE /\ inst' = [inst EXCEPT ![g] = [lin |-> op.lin, n |-> op.n, restart |-> TRUE, parent |-> old, state |-> "starting"]]
+         ELSE /\ inst' = [inst EXCEPT ![g] = [lin |-> op.lin, n |-> op.n, restart |-> TRUE, parent |-> old, state |-> "starting", file |-> op.file]]
               /\ instances' = Append(instances, g)
               /\ pc' = "dirs"
     /\ UNCHANGED <<hist, op, g, old, k, ph, srv, wg, waiter, held, att>>
@@ -141,7 +147,7 @@ FailTo == IF op.t = "restart" THEN "restartfailed" ELSE "reterr"
 \* ValidateAndExecuteDirectives (+ MakeServers): the directives' setup functions run
 Directives ==
     /\ pc = "dirs"
-    /\ IF op.f = "setup"
+    /\ IF op.f \in {"setup", "panic"}
          THEN Discard /\ pc' = FailTo
          ELSE pc' = (IF inst[g].restart THEN "startup" ELSE "first") /\ UNCHANGED <<inst, instances>>
     /\ UNCHANGED <<hist, op, g, old, k, ph, cb, srv, wg, waiter, held, att>>
@@ -162,7 +168,7 @@ StartupCb ==
     /\ UNCHANGED <<hist, op, g, old, ph, srv, wg, waiter, held, att>>
 
 \* server j of a restarted instance re-uses the old instance's socket for the same address
-Inherits(j) == inst[g].restart /\ j <= inst[old].n
+Inherits(j) == inst[g].restart /\ inst[old].file /\ j <= inst[old].n
 
 \* after the last server has its listener: wg.Add(2) per server and the goroutines are spawned
 SpawnAll(s) == [j \in 1..2 |-> IF j <= inst[g].n THEN [s[j] EXCEPT !.spawned = TRUE] ELSE s[j]]
